@@ -21,7 +21,7 @@ RULE = ('Batches of graph pairs: random G(n,p) pairs, planted copies, trees, for
         'random graph; 0-3 node colour classes, 0-2 edge colour classes; node keys relabelled with sparse shuffled '
         'integers (node order drives symmetry breaking). quick: pattern <= 8, host <= 10, LCS <= 6/7; thorough: pattern '
         '<= 10, host <= 14, LCS <= 8/9. Non-trivial = |Aut(pattern)| >= 2 and >= 2 isomorphisms (or, for LCS, >= 2 '
-        'maximum common subgraphs). distinct = distinct (pattern, host, colours) hashes.')
+        'maximum common subgraphs). distinct = distinct (pattern, host, colours) hashes. Also: histories - several pairs matched through one shared symmetry cache with recoloured repeats of the previous pattern; ONE matcher object asked 2-5 different questions in a row (isomorphisms with/without symmetry, boolean front ends, largest common subgraph with/without symmetry); coset-inside-orbit invariant on analyze_symmetry; pinned witness pairs of earlier findings.')
 ASSUMPTIONS = ['termination is not claimed: a sub-case that exceeds its watchdog is inconclusive (capped at 20% of cases)',
                'sub-cases with more than 2e5 (isomorphisms x automorphisms) are skipped as inconclusive',
                'the own enumerator and networkx VF2 must agree on every case, otherwise the case is a harness error']
